@@ -911,7 +911,7 @@ def field_edits_for(inv: Inventory, path: str, tier: str) -> List[Dict[str, Any]
     except Exception:
         return []
     out: List[Dict[str, Any]] = []
-    which = range(len(recs)) if tier == "thorough" else sorted({0, len(recs) - 1})
+    which = range(len(recs)) if tier == "thorough" else [len(recs) - 1]
     for i in which:
         for field, value in table:
             d = field_edit(inv, path, f"edit:{i}:{field}={json.dumps(value)}")
@@ -950,6 +950,8 @@ def field_edits_for(inv: Inventory, path: str, tier: str) -> List[Dict[str, Any]
             if key is None or key in seen:
                 continue
             seen.add(key)
+            if tier != "thorough" and len(seen) > 10:
+                continue
             out.append({"name": f"xor@{o}:{mask}", "class": "edit", "writes": {path: b2}, "field": str(key)})
     del base
     return out
@@ -1030,7 +1032,8 @@ def damages_for(inv: Inventory, path: str, tier: str, rng: random.Random) -> Lis
             if len(found) >= 2:
                 break
     out.append({"name": "braces", "class": "replace", "writes": {path: b"{}"}})
-    out.append({"name": "text", "class": "replace", "writes": {path: b"not a table file\n"}})
+    if tier == "thorough":
+        out.append({"name": "text", "class": "replace", "writes": {path: b"not a table file\n"}})
     flips = set(([0, 3, n // 3, n // 2, n - 5, n - 1] if tier == "thorough" else [0, n // 2, n - 1]) + [b for b in bounds if b < n])
     if tier == "thorough":
         flips |= set(range(0, n, max(1, n // 32)))
@@ -1069,7 +1072,7 @@ def damages_for(inv: Inventory, path: str, tier: str, rng: random.Random) -> Lis
                     continue
                 seen_sig.add(sig)
                 out.append(dict(damage_by_name(inv, path, f"xor@{o}:{mask}"), footer_flip=True, field=f"rows handed out {rb[1]}/{full}"))
-            if len(seen_sig) >= (8 if tier == "thorough" else 4):
+            if len(seen_sig) >= (8 if tier == "thorough" else 3):
                 break
     for sib in inv.siblings(path):
         out.append({"name": "swap-sibling", "class": "swap", "writes": {path: inv.files[sib], sib: orig}, "sibling": sib})
@@ -1825,7 +1828,7 @@ def outage_plans(ncalls: int, tier: str) -> List[Dict[str, Any]]:
     and m in 1..3 (m = 1 is the single failing call, here also on operations no per-file fault reaches, such as the
     directory listing of the recovery scan), and outages of a whole class of calls for the whole read."""
     plans: List[Dict[str, Any]] = []
-    for m in (1, 2, 3) if tier == "quick" else (1, 2, 3, 5):
+    for m in (2, 3) if tier == "quick" else (1, 2, 3, 5):
         for k in range(ncalls):
             plans.append({"from": k, "len": m, "ops": "all", "paths": "all"})
     for k in (range(ncalls) if tier == "thorough" else range(0, ncalls, 3)):
@@ -1950,15 +1953,16 @@ def run(ctx) -> None:
         for name, (shape, _tr, full) in VARIANTS.items():
             run_table(ctx, os.path.join(ctx.scratch, f"v-{name}"), shape, f"variant:{name}", variant=name,
                       reduced=(ctx.tier == "quick" or not full),
-                      file_limit=(2 if not full else 5 if ctx.tier == "quick" else None))
+                      file_limit=(2 if not full else 4 if ctx.tier == "quick" else None))
     except RuntimeError as e:
         ctx.proof_problems.append("model evaluation failed (variants): " + str(e)[:800])
     oracle_filtered(ctx, os.path.join(ctx.scratch, "tf"))
     oracle_fresh_handle(ctx, os.path.join(ctx.scratch, "th"))
     oracle_options(ctx, os.path.join(ctx.scratch, "to"))
     oracle_mid_call(ctx, os.path.join(ctx.scratch, "tm"), [[2, 2], [3]])
-    for i, (variant, sess) in enumerate([(None, False), ("no-pointer", False), ("bad-pointer", False), ("json", False), (None, True)]
-                                         + ([("legacy-pointer-missing-file", False), ("no-pointer", True), ("dup", False)] if ctx.tier == "thorough" else [])):
+    for i, (variant, sess) in enumerate([(None, False), ("no-pointer", False), (None, True)]
+                                         + ([("bad-pointer", False), ("json", False), ("legacy-pointer-missing-file", False), ("no-pointer", True),
+                                             ("dup", False)] if ctx.tier == "thorough" else [])):
         oracle_outage(ctx, os.path.join(ctx.scratch, f"to{i}"), [[2, 1], [2]], variant, f"outage:{variant or 'standard'}{':session' if sess else ''}", sess)
     shrink(ctx)
 
